@@ -38,6 +38,8 @@ def c04_projects(quick: bool, rng: random.Random) -> List[Dict[str, Any]]:
         head, tail = ps[:-2], ps[-2:]
         ps = head[::5] + tail
     ps += list(families.t_c04_pkginit())
+    ps += [p for p in families.t3_reexport() if p["meta"].get("idiom") in ("moved-module", "module-alias-handed-on")
+           or (p["meta"].get("form") == "plain" and p["meta"].get("consumers") in (["o"], ["o2"], ["o", "r"]))]
     ps += list(families.t1_base_chains())[:: (6 if quick else 1)] + list(families.t6_nested_packages())
     if not quick:
         ps += [families.random_project(rng, rng.randint(3, 5)) for _ in range(150)]
@@ -59,6 +61,9 @@ def site_of_real(obj: Any, real: Dict[str, Any]) -> Optional[List[int]]:
     if obj is None:
         return None
     if isinstance(obj, model.Module):
+        s = P.site_of(obj, real["modidx"])          # the module docstring carries the site (the module may have been moved)
+        if s is not None:
+            return s
         i = real["modidx"].get(obj.fullName())
         return [i, 0] if i else None
     return P.site_of(obj, real["modidx"])
@@ -94,6 +99,14 @@ def must_resolve(proj: Dict[str, Any]) -> Dict[Tuple[int, int, Tuple[str, ...]],
 def judge_rows(ctx: Ctx, proj: Dict[str, Any], sched: List[int], rows: List[Dict[str, Any]], real: Dict[str, Any],
                counters: Dict[str, int]) -> None:
     must = must_resolve(proj)
+    # "reached through a module alias": any local name that denotes a project module (import a.b as c, from p import a,
+    # from .hub import engine ...), followed by a name that module itself defines
+    single = {(r["scope"][0], r["scope"][1], r["name"][0]): r["py"] for r in rows if len(r["name"]) == 1}
+    for r in rows:
+        if len(r["name"]) == 2:
+            v = single.get((r["scope"][0], r["scope"][1], r["name"][0]))
+            if v and v[1] == 0 and r["name"][1] in P.top_level_defs(proj, v[0]) and not proj["mods"][v[0] - 1]["broken"]:
+                must.setdefault((r["scope"][0], r["scope"][1], tuple(r["name"])), "module-alias")
     for row in rows:
         so = scope_obj(real, proj, row["scope"])
         if so is None:
